@@ -11,6 +11,7 @@ import (
 	"path/filepath"
 	"strings"
 	"sync"
+	"sync/atomic"
 	"time"
 )
 
@@ -292,12 +293,16 @@ func dischargeAll(results []*FuncResult, dir string, timeoutMs int, all bool, wo
 	}
 	ch2 := make(chan job)
 	var wg2 sync.WaitGroup
+	// once three obligations have stayed undecided with the long limit the
+	// verdict of the run is settled (it fails, and not because of load): the
+	// rest keep their first-pass answer instead of costing minutes each
+	var stillOpen int32
 	for i := 0; i < w2; i++ {
 		wg2.Add(1)
 		go func() {
 			defer wg2.Done()
 			for j := range ch2 {
-				if time.Now().After(deadline) {
+				if time.Now().After(deadline) || atomic.LoadInt32(&stillOpen) >= 3 {
 					continue
 				}
 				first := j.ob.Solver
@@ -307,6 +312,9 @@ func dischargeAll(results []*FuncResult, dir string, timeoutMs int, all bool, wo
 				discharge(j.ob, q, dir, timeoutMs*4, false)
 				j.ob.Millis += firstMs
 				j.ob.Solver = j.ob.Solver + " {second pass, limit x4; first pass: " + first + "}"
+				if j.ob.Verdict != "unsat" {
+					atomic.AddInt32(&stillOpen, 1)
+				}
 			}
 		}()
 	}
